@@ -40,6 +40,14 @@ def impl_eval(case):
     from cardutil import mciipm, config
     data = file_of(case)
     saved = None
+    if case.get('preload'):
+        # a HISTORY: earlier in the same process a message that uses the same unconfigured element was (unsuccessfully)
+        # decoded with the packaged configuration — the inspection that follows says what it would say in a fresh process
+        from cardutil import iso8583
+        try:
+            iso8583.loads(bytes.fromhex(case['preload']))
+        except Exception:  # noqa
+            pass
     try:
         if 'cfgedit' in case:
             # a HISTORY: inspect, change the packaged configuration in place (drop / add an element), inspect again
@@ -178,6 +186,11 @@ def explore(run, tier):
         rec = b'1240' + bm([bit]) + b' ' * 30
         cases.append({'hex': (struct.pack('>I', len(rec)) + rec).hex(),
                       'expect': 'valid' if bit in configured else 'invalid', 'cls': f'bit {bit}'})
+    for bit in range(2, 129):
+        if bit not in configured:
+            rec = b'1240' + bm([bit]) + b' ' * 30
+            cases.append({'hex': (struct.pack('>I', len(rec)) + rec).hex(), 'expect': 'invalid', 'preload': rec.hex(),
+                          'cls': f'bit {bit} after a failed decode of a message using it'})
     run.exhaustive.append('every bit 2..128 as the only element of the first bitmap')
     # the same with bit 1 (secondary bitmap indicator) CLEAR: the library always reads 16 bytes, so an unconfigured
     # bit 65..128 is invalid whatever bit 1 says
